@@ -795,6 +795,38 @@ fn op_load<H: HashChain + 'static>(d: &mut Driver, cmd: &Value) {
     d.emit(Value::Object(ev));
 }
 
+/// SigningKey::as_mut_slice: the caller overwrites the bytes of an existing in-memory object
+fn op_poke<H: HashChain + 'static>(d: &mut Driver, cmd: &Value) {
+    let alg = cmd["alg"].as_str().unwrap().to_string();
+    let key = d.bytes(&cmd["key"]);
+    let name = cmd["mem"].as_str().unwrap().to_string();
+    if !d.mem.contains_key(&name) {
+        emit_skip(d, cmd, "no in-memory key of that name (its load was refused)");
+        return;
+    }
+    let sk = d.mem.get_mut(&name).unwrap().downcast_mut::<SigningKey<H>>().expect("driver: mem key of another hash");
+    let r = guarded(|| {
+        let dst = sk.as_mut_slice();
+        if dst.len() != key.len() {
+            return Err(format!("length {} != {}", dst.len(), key.len()));
+        }
+        dst.copy_from_slice(&key);
+        Ok(())
+    });
+    let mut ev = Map::new();
+    ev.insert("ev".into(), json!("poke"));
+    ev.insert("alg".into(), json!(alg));
+    ev.insert("mem".into(), json!(name));
+    ev.insert("key".into(), json!(hex(&key)));
+    ev.insert("res".into(), json!(res_str(&r)));
+    ev.insert("mem_after".into(), json!(hex(sk.as_slice())));
+    if let Err(m) = &r {
+        ev.insert("panic".into(), json!(m));
+    }
+    copy_meta(cmd, &mut ev);
+    d.emit(Value::Object(ev));
+}
+
 /// SigningKey::as_slice into a slot ("persist the in-memory key")
 fn op_persist<H: HashChain + 'static>(d: &mut Driver, cmd: &Value) {
     let alg = cmd["alg"].as_str().unwrap().to_string();
@@ -1224,6 +1256,7 @@ fn exec(d: &mut Driver, cmd: &Value) {
                 "lifetime" => dispatch!(alg.as_str(), op_lifetime, d, cmd),
                 "load" => dispatch!(alg.as_str(), op_load, d, cmd),
                 "persist" => dispatch!(alg.as_str(), op_persist, d, cmd),
+                "poke" => dispatch!(alg.as_str(), op_poke, d, cmd),
                 "hook" => dispatch!(alg.as_str(), op_hook, d, cmd),
                 "find_msg" => dispatch!(alg.as_str(), op_find_msg, d, cmd),
                 other => panic!("driver: unknown op {}", other),
